@@ -668,7 +668,11 @@ class Interp:
         d = {}
         for k, v in zip(node.keys, node.values):
             if k is None:
-                d.update(self.as_mapping(self.eval(v, env)))
+                vv = self.eval(v, env)
+                if hasattr(vv, "pyvc_update_into"):
+                    vv.pyvc_update_into(self, d)
+                else:
+                    d.update(self.as_mapping(vv))
             else:
                 d[self.hashable(self.eval(k, env))] = self.eval(v, env)
         hook = getattr(self, "display_hook", None)
@@ -887,6 +891,10 @@ class Interp:
             if hasattr(other, "pyvc_is_none"):
                 return other.pyvc_is_none()
             return False
+        if hasattr(a, "pyvc_identical"):
+            return a.pyvc_identical(self, b)
+        if hasattr(b, "pyvc_identical"):
+            return b.pyvc_identical(self, a)
         if isinstance(a, ObjRef) and isinstance(b, ObjRef):
             return T.eq(a.term, b.term)
         if isinstance(a, LocalObj) and isinstance(b, ObjRef) and a.ref is not None:
@@ -1330,6 +1338,8 @@ class Interp:
             return self.call(v.fget, [obj], {})
         if isinstance(v, Builtin):
             return v
+        if hasattr(v, "pyvc_bind"):
+            return v.pyvc_bind(self, obj)
         return v
 
     def setattr(self, obj, name, v):
